@@ -56,6 +56,10 @@ def plans_core(prop, tier, seed):
         # sources cut by a bounded merge, then merged from without bound
         plans.append(dict(name="fromBounded", consts=base_consts(NR=3, Writer0=[1, 2, 3], MaxE=4, MaxOps=5 if q else 6, Sizes={1, 2}),
                           max_scripts=20000 if q else 300000))
+    if prop == "C03":
+        # the same small histories with every clock starting just below 2^53 (times a float64 cannot all represent)
+        plans.append(dict(name="exhBigCore", clock_base=2 ** 53 - 2,
+                          consts=base_consts(NR=3, Writer0=[1, 2, 3], MaxE=4, MaxOps=5 if q else 6)))
     if prop == "C05":
         # under the link-sealing codec, with replicas read back from the store (their decoded entries carry no sealed
         # form in memory): verification during a merge must not touch the entry objects another log holds
@@ -135,6 +139,9 @@ def plans_c06(prop, tier, seed):
              consts=base_consts(NR=2, Writer0=[1, 2], Lid=["X"] * 2, Denied=[set()] * 2, MaxE=4, MaxOps=6 if q else 7,
                                 Evil={1}, Kinds={"unsigned", "missigned", "payload"}, MaxBad=1),
              max_scripts=30000 if q else None),
+        # a genuine entry verified by one replica, then a tampered copy of it offered to a third one
+        dict(name="tamper3q", consts=base_consts(NR=3, Writer0=[1, 2, 3], MaxE=2, MaxOps=5, Evil={1}, Kinds={"missigned", "payload"}, MaxBad=1),
+             max_scripts=20000 if q else None),
         # access control: replica 2 denies writer 1, replica 3 denies everybody
         dict(name="acl", consts=base_consts(Denied=[set(), {1}, {1, 2}], MaxE=4, MaxOps=5 if q else 7)),
     ]
@@ -184,6 +191,11 @@ def plans_c17(prop, tier, seed):
              consts=base_consts(NR=2, Writer0=[1, 1], Lid=["X"] * 2, Denied=[set(), set()], MaxE=3, MaxOps=5 if q else 6,
                                 PCs={1}, PubOn={1}, WriteFaults=True),
              max_scripts=5000 if q else 50000),
+        # appends that ask for their block to be pinned, with refused block writes
+        dict(name="writefaultPin", audit="c17", mode="all", pin=True,
+             consts=base_consts(NR=2, Writer0=[1, 2], Lid=["X"] * 2, Denied=[set()] * 2, MaxE=3, MaxOps=5 if q else 6,
+                                PCs={1}, PubOn={1}, WriteFaults=True),
+             max_scripts=3000 if q else 30000),
         dict(name="crash3", audit="c17", mode="all",
              consts=base_consts(MaxE=4 if q else 5, MaxOps=6 if q else 8, PCs={1, 4}, PubOn={1}, Fn="HASH"),
              max_scripts=1500 if q else 30000),
